@@ -19,6 +19,17 @@ try:
     demo = "cd %s && timeout 600 /venv/bin/python -W ignore %s/demo.py" % (wt, d)
     rc0, o0 = sh(demo, env=env); res["demo_without_patch"] = rc0
     rc, out = sh("git -C %s apply %s/patch.diff" % (wt, d)); res["patch_applies"] = (rc == 0)
+    if rc != 0:
+        # the tree moved on (fix: commits): try a 3-way merge of the same change, then a fuzzy patch
+        rc, out2 = sh("git -C %s apply --3way %s/patch.diff" % (wt, d))
+        if rc != 0:
+            sh("git -C %s checkout -- ." % wt)
+            rc, out2 = sh("cd %s && patch -p1 -F3 < %s/patch.diff" % (wt, d))
+        if rc == 0:
+            sh("git -C %s reset -q" % wt)
+            res["patch_applies"] = True; res["applied_with"] = "3way-or-fuzz"
+        else:
+            sh("git -C %s checkout -- ." % wt); out = out + out2
     if rc != 0: res["apply_error"] = out[-500:]
     else:
         rc1, o1 = sh(demo, env=env); res["demo_with_patch"] = rc1; res["demo_tail"] = o1[-300:]
